@@ -128,34 +128,27 @@ def exF0 : Program :=
 example : F0Prog exF0 := by decide
 example : compiles exF0 = true := by decide
 
-/-! ### fragment F1: F0 + if / elseif / else -/
+/-! ### fragments F1, F2: the compositional proof (`ESV/Comp/Cg*.lean`), by level -/
 
-/-- F1 programs: no macros, routines numbered 0, 1, 2, … in source order, bodies built from the statements of F0 and
-if-blocks with any number of headers (`||`), `not`, elseifs, an optional else, empty blocks (`cgStmts`) -/
-def F1Prog (p : Program) : Prop := CgProg p
-
-instance (p : Program) : Decidable (F1Prog p) := by unfold F1Prog; infer_instance
-
-/-- **The code generator is correct on F1**: source semantics of every routine ≈ labelled code of the front end. -/
-theorem codegen_correct_F1 (p : Program) (t : Tables) (hp : F1Prog p) (hf : frontend p = .ok t) (j : Nat) (r : Routine)
+/-- the code generator is correct on the programs of level `lv` (`cgStmt lv`) -/
+theorem codegen_correct_level (lv : Nat) (p : Program) (t : Tables) (hp : CgProg lv p) (hf : frontend p = .ok t) (j : Nat) (r : Routine)
     (hj : p.routines[j]? = some r) :
     ∃ e, (toSrc p).graph.entries[j]? = some (some e) ∧
       Equivalent (toSrc p).graph.lts (labLTS t.ops) e (labEntry t.ops j) :=
-  codegen_correct_cg p t hp hf j r hj
+  codegen_correct_cg lv p t hp hf j r hj
 
-/-- **The compiler is correct on F1**, end to end: source semantics of every routine ≈ SSB machine on the compiled ops. -/
-theorem compile_correct_F1 (p : Program) (res : Result) (hp : F1Prog p) (h : compile p = .ok res) (j : Nat) (r : Routine)
+/-- the compiler is correct on the programs of level `lv`, end to end -/
+theorem compile_correct_level (lv : Nat) (p : Program) (res : Result) (hp : CgProg lv p) (h : compile p = .ok res) (j : Nat) (r : Routine)
     (hj : p.routines[j]? = some r) :
     ∃ e, (toSrc p).graph.entries[j]? = some (some e) ∧
       Equivalent (toSrc p).graph.lts (Machine.lts ⟨flatten (conv res.ops)⟩) e (Machine.entry ⟨flatten (conv res.ops)⟩ j) := by
-  obtain ⟨t, hf, _, _, hb⟩ := compile_backend_equiv p res (frontGuard_of_cg p hp) h
-  obtain ⟨e, he, h1⟩ := codegen_correct_F1 p t hp hf j r hj
+  obtain ⟨t, hf, _, _, hb⟩ := compile_backend_equiv p res (frontGuard_of_cg lv p hp) h
+  obtain ⟨e, he, h1⟩ := codegen_correct_level lv p t hp hf j r hj
   have hlt : j < t.ops.length := by
     -- the routine has an op list in the front end's tables
     rcases Nat.lt_or_ge j t.ops.length with h' | h'
     · exact h'
     · exfalso
-      -- outside the tables the labelled code is stuck, the source routine is not
       obtain ⟨hm, hseq, hall⟩ := hp
       unfold frontend at hf
       rw [hm] at hf
@@ -170,12 +163,34 @@ theorem compile_correct_F1 (p : Program) (res : Result) (hp : F1Prog p) (h : com
         rw [hr] at hf
         simp only [Except.ok.injEq] at hf
         subst hf
-        obtain ⟨its, _, _, _, _, hits, _⟩ := (compileRoutines_cg ⟨[], [], List.nodup_nil⟩ 1 p.routines 0 _ _ _ _ hseq rfl rfl hall rfl rfl
+        obtain ⟨its, _, _, _, _, hits, _⟩ := (compileRoutines_cg ⟨[], [], List.nodup_nil⟩ 1 lv p.routines 0 _ _ _ _ hseq rfl rfl hall rfl rfl
           (wrapAssert_ok hr)).2 j r hj
         simp only [Nat.zero_add] at hits
         rw [List.getElem?_eq_none h'] at hits
         cases hits
   exact ⟨e, he, h1.trans (hb j hlt)⟩
+
+/-! ### fragment F1: F0 + if / elseif / else -/
+
+/-- F1 programs: no macros, routines numbered 0, 1, 2, … in source order, bodies built from the statements of F0 and
+if-blocks with any number of headers (`||`), `not`, elseifs, an optional else, empty blocks (`cgStmts 1`) -/
+def F1Prog (p : Program) : Prop := CgProg 1 p
+
+instance (p : Program) : Decidable (F1Prog p) := by unfold F1Prog; infer_instance
+
+/-- **The code generator is correct on F1**: source semantics of every routine ≈ labelled code of the front end. -/
+theorem codegen_correct_F1 (p : Program) (t : Tables) (hp : F1Prog p) (hf : frontend p = .ok t) (j : Nat) (r : Routine)
+    (hj : p.routines[j]? = some r) :
+    ∃ e, (toSrc p).graph.entries[j]? = some (some e) ∧
+      Equivalent (toSrc p).graph.lts (labLTS t.ops) e (labEntry t.ops j) :=
+  codegen_correct_level 1 p t hp hf j r hj
+
+/-- **The compiler is correct on F1**, end to end: source semantics of every routine ≈ SSB machine on the compiled ops. -/
+theorem compile_correct_F1 (p : Program) (res : Result) (hp : F1Prog p) (h : compile p = .ok res) (j : Nat) (r : Routine)
+    (hj : p.routines[j]? = some r) :
+    ∃ e, (toSrc p).graph.entries[j]? = some (some e) ∧
+      Equivalent (toSrc p).graph.lts (Machine.lts ⟨flatten (conv res.ops)⟩) e (Machine.entry ⟨flatten (conv res.ops)⟩ j) :=
+  compile_correct_level 1 p res hp h j r hj
 
 /-- non-vacuity: `def 0 { a(); if (Branch 1 || Branch 2) { b(); } elseif not (Branch 3) { return; } else { } c(); }` -/
 def exF1 : Program :=
@@ -185,5 +200,45 @@ def exF1 : Program :=
 
 example : F1Prog exF1 := by decide
 example : compiles exF1 = true := by decide
+
+/-! ### fragment F2: F1 + forever / while / for, continue, break_loop -/
+
+/-- F2 programs: as F1, and `forever { }`, `while (t) { }`, `while not (t) { }`, `for (init; t; inc) { }` (init and inc
+statements of F0) with `continue` and `break_loop` anywhere in their bodies, nested in any way (`cgStmts 2`) -/
+def F2Prog (p : Program) : Prop := CgProg 2 p
+
+instance (p : Program) : Decidable (F2Prog p) := by unfold F2Prog; infer_instance
+
+/-- **The code generator is correct on F2**: source semantics of every routine ≈ labelled code of the front end. -/
+theorem codegen_correct_F2 (p : Program) (t : Tables) (hp : F2Prog p) (hf : frontend p = .ok t) (j : Nat) (r : Routine)
+    (hj : p.routines[j]? = some r) :
+    ∃ e, (toSrc p).graph.entries[j]? = some (some e) ∧
+      Equivalent (toSrc p).graph.lts (labLTS t.ops) e (labEntry t.ops j) :=
+  codegen_correct_level 2 p t hp hf j r hj
+
+/-- **The compiler is correct on F2**, end to end: source semantics of every routine ≈ SSB machine on the compiled ops. -/
+theorem compile_correct_F2 (p : Program) (res : Result) (hp : F2Prog p) (h : compile p = .ok res) (j : Nat) (r : Routine)
+    (hj : p.routines[j]? = some r) :
+    ∃ e, (toSrc p).graph.entries[j]? = some (some e) ∧
+      Equivalent (toSrc p).graph.lts (Machine.lts ⟨flatten (conv res.ops)⟩) e (Machine.entry ⟨flatten (conv res.ops)⟩ j) :=
+  compile_correct_level 2 p res hp h j r hj
+
+/-- non-vacuity: `def 0 { forever { a(); while not (Branch 1) { if (Branch 2) { continue; } b(); }
+for (i(); Branch 3; n()) { if (Branch 4) { break_loop; } c(); } while (Branch 5) { } if (Branch 6) { break_loop; } } d(); }` -/
+def exF2 : Program :=
+  ⟨[], [], [⟨some 0, "r0", none,
+    .cons (.forever
+      (.cons (.op "a" [])
+      (.cons (.while_ true ⟨false, "Branch", [.int 1]⟩
+        (.cons (.ite false [⟨false, "Branch", [.int 2]⟩] (.cons .cont .nil) .nil false .nil) (.cons (.op "b" []) .nil)))
+      (.cons (.for_ (.op "i" []) ⟨false, "Branch", [.int 3]⟩ (.op "n" [])
+        (.cons (.ite false [⟨false, "Branch", [.int 4]⟩] (.cons .brkLoop .nil) .nil false .nil) (.cons (.op "c" []) .nil)))
+      (.cons (.while_ false ⟨false, "Branch", [.int 5]⟩ .nil)
+      (.cons (.ite false [⟨false, "Branch", [.int 6]⟩] (.cons .brkLoop .nil) .nil false .nil) .nil))))))
+    (.cons (.op "d" []) .nil)⟩]⟩
+
+example : F2Prog exF2 := by decide
+example : ¬ F1Prog exF2 := by decide
+example : compiles exF2 = true := by decide
 
 end ESV.C01Frontend
